@@ -285,12 +285,14 @@ def rule_nan(ctx):
     okt = False
     if rets:
         comps = [n for n in ast.walk(rets[0].value) if isinstance(n, ast.ListComp)]
-        if comps and len(comps[0].generators) == 1:
-            c = comps[0]
-            gnr = c.generators[0]
-            if isinstance(gnr.target, ast.Tuple) and len(gnr.target.elts) == 2 and norm(gnr.iter) == "enumerate(%s)" % pr:
-                i, pa = [norm(x) for x in gnr.target.elts]
-                okt = norm(c.elt) == "%s[%s][%s]" % (oi, i, pa)
+        if comps:
+            from ..flow import elementwise_elt
+            e = elementwise_elt(comps[0])
+            if e is None:
+                raise AnalysisError("_to_original: comprehension is not a parallel iteration over the pairs")
+            okt = norm(e) == "%s[_i][%s[_i]]" % (oi, pr)
+        else:
+            raise AnalysisError("_to_original: no comprehension over the pairs")
     ctx.ob("Collocator._to_original", okt, "return %s" % (norm(rets[0].value) if rets else None),
            "row i of the pairs is mapped through original_indices[i]", node=t.node, func=t)
     # collocate: masks, filtered arrays, index arrays
